@@ -103,6 +103,14 @@ triples (bound name, provided name, payload). -/
 def Req.importsM {β : Type} (r : Req) (ex : List (Name × β)) : List (Name × Name × β) :=
   ex.filterMap fun e => (r.rename e.1).map fun v => (v, e.1, e.2)
 
+/-- `mapM` in `Option`, spelled out. -/
+def mapOpt {α β : Type} (f : α → Option β) : List α → Option (List β)
+  | [] => some []
+  | a :: l =>
+    match f a, mapOpt f l with
+    | some b, some bs => some (b :: bs)
+    | _, _ => none
+
 /-- S: modifiers compose.  `none` = the spec is ill-formed (an `only-in` names an identifier that the
 inner spec does not make available). -/
 def Spec.importsS {β : Type} (ex : Nat → List (Name × β)) : Spec → Option (List (Name × β))
@@ -111,7 +119,7 @@ def Spec.importsS {β : Type} (ex : Nat → List (Name × β)) : Spec → Option
   | .onlyIn s ids =>
       match s.importsS ex with
       | none => none
-      | some inner => ids.mapM fun ia => (inner.lookup ia.1).map fun b => (ia.2.getD ia.1, b)
+      | some inner => mapOpt (fun ia => (inner.lookup ia.1).map fun b => (ia.2.getD ia.1, b)) ids
 
 /-- The fragment on which flattening and composing agree: any number of `prefix-in` around at most one
 `only-in` that sits directly on the path, lists at least one identifier, lists no identifier twice and
@@ -255,8 +263,15 @@ def modRefs (g : Graph) (k : Nat) : List Nat :=
   let imps := staticImports g m.reqs
   let globals := m.defs ++ imps.map fun i => if i.2.2.2 then i.2.2.1 else i.2.1
   let used := m.views ++ m.provs.map (·.name)
-  imps.filterMap fun i =>
-    if (i.2.2.2 && !globals.contains i.2.1) || used.contains i.2.1 then some i.1 else none
+  let unmangled := fun (i : Nat × Name × Name × Bool) => i.2.2.2 && !globals.contains i.2.1
+  let rec go : List (Nat × Name × Name × Bool) → List Nat
+    | [] => []
+    | i :: rest =>
+        -- a use of a name counts for the last define of that name in the unit: an import that the
+        -- module's own define, or a later import, shadows is unused
+        let shadowed := m.defs.contains i.2.1 || rest.any (fun j => j.2.1 == i.2.1 && !unmangled j)
+        if unmangled i || (used.contains i.2.1 && !shadowed) then i.1 :: go rest else go rest
+  go imps
 
 def missingBefore (g : Graph) (inst : List Nat) : List Nat → List Nat → Bool
   | _, [] => false
